@@ -7,7 +7,7 @@ for d in seeded/*/; do
   id=$(basename $d); prop=${id%%-*}
   [ -f $d/patch.diff ] || continue
   checks="$prop"; [ -f $d/also ] && checks="$checks $(cat $d/also)"
-  git -C /repo apply $d/patch.diff || { echo -e "$id\t-\tpatch-does-not-apply\t" >> $OUT; continue; }
+  git -C /repo apply /verif/$d/patch.diff || { echo -e "$id\t-\tpatch-does-not-apply\t" >> $OUT; continue; }
   rm -rf /tmp/evidence_keep && cp -r evidence /tmp/evidence_keep
   for c in $checks; do
     out=$(bin/check $c 2>&1); code=$?
